@@ -289,3 +289,8 @@ mod tests {
         assert_eq!(truncate::<64>(s), s);
     }
 }
+
+// Verification hooks (contract proofs run by `cargo kani`; inert in every other build).
+#[cfg(kani)]
+#[path = "/verif/kani/webauthn_proofs.rs"]
+mod verif_proofs;
